@@ -267,7 +267,27 @@ def run(ck, F, tier):
             rr = repr(R)
             by_try = any(rr in repr(t_.args[0]) for t_ in tries)
             by_exit = any(isinstance(x.args[0], tuple) and x.args[0][:2] == ("ctor", "Err") and any(rr in repr(g) for g, pl in x.guards) for x in rets_)
-            in_result = rr in repr(retp)
+            # the step's failure is the function's failure: the step (possibly under map / map_err) is the returned value itself, or
+            # the function has an Err exit conditioned on the step's result.  Merely *containing* the step in an Ok value (r.ok(),
+            # unwrap_or_default, ..) discards the failure.
+            in_result = False
+            v_ = retp
+            for _ in range(4):
+                if isinstance(v_, Poly) and v_ == R:
+                    in_result = True
+                    break
+                a_ = single_atom(v_) if isinstance(v_, Poly) else None
+                if a_ is not None and atom_fn(a_).startswith("std::result::Result::<") and atom_fn(a_).rsplit("::", 1)[-1] in ("map_err", "map", "and_then", "or_else"):
+                    v_ = atom_args(a_)[0]
+                    continue
+                break
+            if not in_result:
+                try:
+                    for conds_, val_ in exits(tp_, retp):
+                        if isinstance(val_, tuple) and len(val_) == 3 and val_[:2] == ("ctor", "Err") and any(rr in c_ for c_, _p in conds_):
+                            in_result = True
+                except Exception:
+                    pass
             # an Err arm of a match on R yielding Err(..) as the value of the function
             wrapped += bool(by_try or by_exit or in_result)
         unw = [c for c in walk(b.value) if c.get("k") == "mcall" and c["m"] in ("unwrap", "expect")]
